@@ -114,6 +114,22 @@ def near_capacity_cases(chk):
     g.emit({'op': 'newp', 'out': b, 'name': g.name(), 'rows': 2, 'cols': 3, 'max': {'v': '50', 'p': 'M', 'b': 'L'}})
     g.emit({'op': 'transfer', 'src': {'c': a}, 'dst': {'p': b, 'r': {'rect': [[0, 1], [0, 1, 2]]}}, 'q': {'v': '20', 'p': 'M', 'b': 'L'}, 'osrc': g.fresh(), 'odst': g.fresh()})
     out.append(g)
+    # a buffer that carries an enzyme (stored in activity units, which no storage prefix scales) used as the solvent of a solution
+    q = lambda v, p, b: {'v': v, 'p': p, 'b': b}
+    g = gen.Gen(random.Random(chk.seed * 100003 + 189001), nsubs=9)
+    buf = g.fresh()
+    g.emit({'op': 'newc', 'out': buf, 'name': g.name(), 'init': [[1, q('20', 'm', 'L')], [6, q('2', '', 'U')]]})
+    g.emit({'op': 'solutionc', 'solutes': [4], 'solventv': buf, 'name': g.name(), 'mode': {'cs': [{'s': 'M', 'v': '0.1'}], 'total': q('5', 'm', 'L')},
+            'osolv': g.fresh(), 'out': g.fresh()})
+    out.append(g)
+    # a tube with nanomoles of a solute (amounts that are whole multiples of the last digit stored under every configuration) dispensed
+    # into four wells: every well receives its share and the tube keeps the rest
+    g = gen.Gen(random.Random(chk.seed * 100003 + 189002), nsubs=9)
+    tube, plate = g.fresh(), g.fresh()
+    g.emit({'op': 'newc', 'out': tube, 'name': g.name(), 'init': [[1, q('60', 'u', 'L')], [5, q('12', 'n', 'mol')]]})
+    g.emit({'op': 'newp', 'out': plate, 'name': g.name(), 'rows': 1, 'cols': 4, 'max': q('100', 'u', 'L')})
+    g.emit({'op': 'transfer', 'src': {'c': tube}, 'dst': {'p': plate, 'r': {'rect': [[0], [0, 1, 2, 3]]}}, 'q': q('10', 'u', 'L'), 'osrc': g.fresh(), 'odst': g.fresh()})
+    out.append(g)
     return out
 
 
